@@ -19,13 +19,13 @@ theorem SameTables.toProcs {s s' : St} (h : SameTables U s s') : SameProcs s s' 
 theorem detach_procs (s : St) (e : Ent) (st : Ty) : SameProcs s (detach s e st) := by
   unfold detach; simp only; split <;> exact ⟨rfl, rfl, rfl⟩
 
-theorem removeComponent_procs (U : Universe) (s : St) (e : Ent) (t : Ty) :
+theorem removeComponent_procs (U : Universe) [U.NoReenter] (s : St) (e : Ent) (t : Ty) :
     SameProcs s (removeComponent U s e t).1 := by
   rcases removeComponent_spec U s e t with ⟨_, heq⟩ | ⟨st, c, _, _, _, hsame⟩
   · rw [heq]; exact .refl s
   · exact (detach_procs s e st).trans hsame.toProcs
 
-theorem removeTypes_procs (U : Universe) (s : St) (e : Ent) (ts : List Ty) :
+theorem removeTypes_procs (U : Universe) [U.NoReenter] (s : St) (e : Ent) (ts : List Ty) :
     SameProcs s (removeTypes U s e ts).1 := by
   induction ts generalizing s with
   | nil => exact .refl s
@@ -40,10 +40,10 @@ theorem removeTypes_procs (U : Universe) (s : St) (e : Ent) (ts : List Ty) :
       · exact h1.trans (ih s')
       all_goals exact h1
 
-theorem attachEvents_procs (U : Universe) (s : St) (o : Obj) (ent : Option Ent) :
+theorem attachEvents_procs (U : Universe) [U.NoReenter] (s : St) (o : Obj) (ent : Option Ent) :
     SameProcs s (attachEvents U s o ent).1 := (attachEvents_tables U s o ent).toProcs
 
-theorem attachAll_procs (U : Universe) (s : St) (e : Ent) (cs : List Obj) :
+theorem attachAll_procs (U : Universe) [U.NoReenter] (s : St) (e : Ent) (cs : List Obj) :
     SameProcs s (attachAll U s e cs).1 := (attachAll_tables U s e cs).toProcs
 
 theorem foldAttach_procs (U : Universe) (e : Ent) (cs : List Obj) (s : St) :
@@ -54,7 +54,7 @@ theorem foldAttach_procs (U : Universe) (e : Ent) (cs : List Obj) (s : St) :
     have h0 : SameProcs s (attachTables U s e c) := ⟨rfl, rfl, rfl⟩
     exact h0.trans (ih _)
 
-theorem createEntity_procs (U : Universe) (s : St) (id? : Option Ent) (cs : List Obj) :
+theorem createEntity_procs (U : Universe) [U.NoReenter] (s : St) (id? : Option Ent) (cs : List Obj) :
     SameProcs s (createEntity U s id? cs).1 := by
   unfold createEntity
   cases id? with
@@ -86,7 +86,7 @@ end Desper.World
 namespace Desper.World
 open Desper
 
-theorem addComponent_procs (U : Universe) (s : St) (e : Ent) (c : Obj) :
+theorem addComponent_procs (U : Universe) [U.NoReenter] (s : St) (e : Ent) (c : Obj) :
     SameProcs s (addComponent U s e c).1 := by
   unfold addComponent
   simp only
@@ -105,7 +105,7 @@ theorem addComponent_procs (U : Universe) (s : St) (e : Ent) (c : Obj) :
     · exact removeComponent_procs U s e (tyOf U c)
     · exact .refl s
 
-theorem deleteEntity_procs (U : Universe) (s : St) (e : Ent) (imm : Bool) :
+theorem deleteEntity_procs (U : Universe) [U.NoReenter] (s : St) (e : Ent) (imm : Bool) :
     SameProcs s (deleteEntity U s e imm).1 := by
   unfold deleteEntity
   split
@@ -114,7 +114,7 @@ theorem deleteEntity_procs (U : Universe) (s : St) (e : Ent) (imm : Bool) :
     · exact removeTypes_procs U s e _
   · exact ⟨rfl, rfl, rfl⟩
 
-theorem sweep_procs (U : Universe) (s : St) (es : List Ent) : SameProcs s (sweep U s es).1 := by
+theorem sweep_procs (U : Universe) [U.NoReenter] (s : St) (es : List Ent) : SameProcs s (sweep U s es).1 := by
   induction es generalizing s with
   | nil => exact .refl s
   | cons e es ih =>
@@ -130,17 +130,17 @@ theorem sweep_procs (U : Universe) (s : St) (es : List Ent) : SameProcs s (sweep
         · exact h1.trans (ih s')
         all_goals exact h1
 
-theorem clearDead_procs (U : Universe) (s : St) : SameProcs s (clearDead U s).1 := by
+theorem clearDead_procs (U : Universe) [U.NoReenter] (s : St) : SameProcs s (clearDead U s).1 := by
   unfold clearDead
   split
   · exact .refl s
   · have h0 : SameProcs s { s with dead := [], sweepHints := s.sweepHints.drop 1 } := ⟨rfl, rfl, rfl⟩
     exact h0.trans (sweep_procs U _ _)
 
-theorem callCb_procs (U : Universe) (s : St) (o : Obj) (m : String) (e : Entry) :
+theorem callCb_procs (U : Universe) [U.NoReenter] (s : St) (o : Obj) (m : String) (e : Entry) :
     SameProcs s (callCb U s o m e).1 := (callCb_tables U s o m e).toProcs
 
-theorem deliverPlain_tables (U : Universe) (s : St) (ev args : String) :
+theorem deliverPlain_tables (U : Universe) [U.NoReenter] (s : St) (ev args : String) :
     SameTables U s (deliverPlain U s ev args).1 := by
   unfold deliverPlain
   generalize s.registered = l
@@ -165,7 +165,7 @@ theorem deliverPlain_tables (U : Universe) (s : St) (ev args : String) :
       · exact h
     all_goals exact h
 
-theorem dispatchPlain_tables (U : Universe) (s : St) (ev args : String) :
+theorem dispatchPlain_tables (U : Universe) [U.NoReenter] (s : St) (ev args : String) :
     SameTables U s (dispatchPlain U s ev args).1 := by
   unfold dispatchPlain
   split
@@ -174,7 +174,7 @@ theorem dispatchPlain_tables (U : Universe) (s : St) (ev args : String) :
     · exact ⟨rfl, rfl, fun _ => rfl, rfl, rfl, rfl, rfl, fun _ h => h⟩
     · exact deliverPlain_tables U s ev args
 
-theorem runProcs_tables (U : Universe) (s : St) (dt : String) (ps : List Obj) :
+theorem runProcs_tables (U : Universe) [U.NoReenter] (s : St) (dt : String) (ps : List Obj) :
     SameTables U s (runProcs U s dt ps).1 := by
   induction ps generalizing s with
   | nil => exact .refl s
@@ -199,7 +199,7 @@ theorem runProcs_tables (U : Universe) (s : St) (dt : String) (ps : List Obj) :
           · exact h1
       all_goals exact h1
 
-theorem process_procs (U : Universe) (s : St) (dt : String) : SameProcs s (process U s dt).1 := by
+theorem process_procs (U : Universe) [U.NoReenter] (s : St) (dt : String) : SameProcs s (process U s dt).1 := by
   unfold process
   have h1 := clearDead_procs U s
   cases hx : clearDead U s with
@@ -209,7 +209,7 @@ theorem process_procs (U : Universe) (s : St) (dt : String) : SameProcs s (proce
     · exact h1.trans (runProcs_tables U s' dt _).toProcs
     all_goals exact h1
 
-theorem deliverQ_tables (U : Universe) (s : St) (q : QEv) : SameTables U s (deliverQ U s q).1 := by
+theorem deliverQ_tables (U : Universe) [U.NoReenter] (s : St) (q : QEv) : SameTables U s (deliverQ U s q).1 := by
   cases q with
   | plain ev args =>
     simp only [deliverQ]
@@ -224,7 +224,7 @@ theorem deliverQ_tables (U : Universe) (s : St) (q : QEv) : SameTables U s (deli
       · exact .refl s
       · exact SameTables.trans (ctrlRecord_tables U s event h ent) (callCb_tables U _ h _ _)
 
-theorem releaseQ_tables (U : Universe) (s : St) (qs : List QEv) :
+theorem releaseQ_tables (U : Universe) [U.NoReenter] (s : St) (qs : List QEv) :
     SameTables U s (releaseQ U s qs).1 := by
   induction qs generalizing s with
   | nil => exact ⟨rfl, rfl, fun _ => rfl, rfl, rfl, rfl, rfl, fun _ h => h⟩
@@ -239,7 +239,7 @@ theorem releaseQ_tables (U : Universe) (s : St) (qs : List QEv) :
       · exact h0.trans (h1.trans (ih s'))
       all_goals exact h0.trans h1
 
-theorem setEnabled_tables (U : Universe) (s : St) (b : Bool) :
+theorem setEnabled_tables (U : Universe) [U.NoReenter] (s : St) (b : Bool) :
     SameTables U s (setEnabled U s b).1 := by
   unfold setEnabled
   simp only
